@@ -7,7 +7,8 @@ property's own), and undo it."""
 import json, os, shutil, subprocess, sys, time
 
 prop, var = sys.argv[1], sys.argv[2]
-props = [prop]
+prop_id = prop[2:] if prop.startswith("W2") else prop      # second wave of seeded changes: W2Cxx
+props = [prop_id]
 verify = True
 for i, a in enumerate(sys.argv[3:]):
     if a == "--props":
@@ -60,27 +61,28 @@ try:
     meta_src = json.load(open(os.path.join(src, "meta.json"))).get(var, {})
 except Exception:
     pass
-# run the checks against /repo with the change applied
-rc, out = sh("git -C /repo status --short | grep -v tests/data")
-if out.strip():
-    print("/repo not clean:", out); sys.exit(4)
-rc, out = sh("git -C /repo apply %s" % patch)
+# run the checks against a scratch copy of /repo's working tree with the change applied
+# (same as `git -C /repo apply` + run + `git -C /repo checkout -- .`, without disturbing other runs)
+import tempfile
+scratch = tempfile.mkdtemp(prefix="seedrepo-")
+sh("rsync -a --exclude .git --exclude build /repo/ %s/" % scratch)
+rc, out = sh("git apply %s" % patch, cwd=scratch)
 if rc != 0:
-    print("cannot apply to /repo:", out); sys.exit(5)
+    print("cannot apply to the working tree copy:", out); shutil.rmtree(scratch, True); sys.exit(5)
 results = {}
 try:
     for p in props:
         t = time.time()
-        rc, out = sh("./check %s --tier quick" % p, cwd="/verif")
+        rc, out = sh("./check %s --tier quick" % p, cwd="/verif", env=dict(os.environ, MOCLO_REPO=scratch))
         lines = [l for l in out.split("\n") if l.startswith("VIOLATION") or l.startswith("KNOWN") or l.startswith(p)]
         results[p] = {"exit": rc, "lines": lines[:6], "wall_s": round(time.time() - t, 1)}
         print(p, "exit", rc, "|", " || ".join(lines[:4])[:600])
 finally:
-    sh("git -C /repo checkout -- .")
+    shutil.rmtree(scratch, True)
 if os.path.isdir(dst):
     mp = os.path.join(dst, "meta.json")
     meta = json.load(open(mp)) if os.path.exists(mp) else {}
-    meta.update({"property": prop, "summary": meta_src.get("summary", meta.get("summary")),
+    meta.update({"property": prop_id, "summary": meta_src.get("summary", meta.get("summary")),
                  "needs": meta_src.get("needs", meta.get("needs")), "files": meta_src.get("files", meta.get("files"))})
     if ran:
         meta["confirmed_by"] = ran
